@@ -32,10 +32,15 @@ pub struct Plan {
     pub seed: u64,
     pub depth: usize,
     pub ops: Vec<Op>,
+    /// the node joined mid-chain: it is preloaded with the world's chain from block 2 or 3 on (it never saw the
+    /// issuance block, so it has not loaded the whole ledger). Only outputs created in blocks it holds are
+    /// offered as inputs; what it admits to its pool must still be valid against the ledger it has
+    #[serde(default)]
+    pub joined_mid_chain: bool,
 }
 
 pub const KINDS: &[&str] = &[
-    "tx", "tx", "tx", "tx-2in", "tx-conflict", "tx-conflict-2nd-input", "tx-dup", "stage", "bundle", "bundle", "peer-confirm", "peer-partial", "peer-conflict", "peer-side-conflict", "peer-invalid", "peer-plain", "reorg", "own-invalid",
+    "tx", "tx", "tx", "tx-2in", "tx-conflict", "tx-conflict-2nd-input", "tx-dup", "stage", "bundle", "bundle", "peer-confirm", "peer-partial", "peer-conflict", "peer-side-conflict", "peer-invalid", "peer-plain", "reorg", "own-invalid", "tx-spent-input",
 ];
 
 fn gen(seed: u64, tier: Tier) -> Plan {
@@ -45,6 +50,7 @@ fn gen(seed: u64, tier: Tier) -> Plan {
         seed,
         depth: rng.range(2, 5) as usize,
         ops: (0..n).map(|_| Op { k: rng.pick(KINDS).to_string(), a: rng.below(32), b: rng.below(32) }).collect(),
+        joined_mid_chain: rng.chance(1, 5),
     }
 }
 
@@ -59,7 +65,7 @@ impl Scenario for C14 {
     fn meta(&self) -> Meta {
         Meta {
             level: "exploration",
-            rule: "run = one real node (consensus processor, timer-driven bundling, real mempool) preloaded with 2-5 blocks; 4..40/120 operations from {valid payment (half of them routed to the node with a fee, so that they carry routing work), two-input payment, conflicting spend of a pooled input, two-input transaction whose second input conflicts with a pooled one, duplicate, staging tick (moves received transactions into the pool without a block), bundling tick, peer block confirming a pooled transaction, peer block spending one of the two inputs of a pooled transaction, peer block conflicting with a pooled transaction, sibling of the tip (never the longest chain) spending a reserved input, invalid peer block, plain peer block, two-block peer fork that reorganises away the last block, a block under the node's own key carrying a good payment and a transaction that re-spends an already spent output (refused; the node hands the transactions of a refused own block back to its pool)}. After every operation: no two pooled transactions share a value-carrying input; every pooled transaction validates against the current ledger; reserved inputs (utxo_map) are exactly the pooled transactions' value-carrying inputs; cached routing work equals the sum over pooled transactions; a bundling tick either produced a block that the node adopted and whose transactions left the pool, or left the pool unchanged; and a fresh valid payment from an unspent output that no pooled transaction spends enters the pool (tried on a scratch basis: the probe transaction is removed again). distinct_nontrivial = distinct op-sequence digests with >= 1 pool/ledger conflict event.",
+            rule: "run = one real node (consensus processor, timer-driven bundling, real mempool) preloaded with 2-5 blocks (one run in five: from block 2 or 3 on only - a node that joined mid-chain and has not loaded the whole ledger; inputs are then drawn from the blocks it holds); 4..40/120 operations from {valid payment (half of them routed to the node with a fee, so that they carry routing work), two-input payment, conflicting spend of a pooled input, two-input transaction whose second input conflicts with a pooled one, duplicate, transaction whose input a held block already spent, staging tick (moves received transactions into the pool without a block), bundling tick, peer block confirming a pooled transaction, peer block spending one of the two inputs of a pooled transaction, peer block conflicting with a pooled transaction, sibling of the tip (never the longest chain) spending a reserved input, invalid peer block, plain peer block, two-block peer fork that reorganises away the last block, a block under the node's own key carrying a good payment and a transaction that re-spends an already spent output (refused; the node hands the transactions of a refused own block back to its pool)}. After every operation: no two pooled transactions share a value-carrying input; every pooled transaction validates against the current ledger; reserved inputs (utxo_map) are exactly the pooled transactions' value-carrying inputs; cached routing work equals the sum over pooled transactions; a bundling tick either produced a block that the node adopted and whose transactions left the pool, or left the pool unchanged; and a fresh valid payment from an unspent output that no pooled transaction spends enters the pool (tried on a scratch basis: the probe transaction is removed again). distinct_nontrivial = distinct op-sequence digests with >= 1 pool/ledger conflict event.",
             real: &["Mempool::add_transaction_if_validates/add_transaction/bundle_block/can_bundle_block/delete_transactions", "ConsensusThread::process_event/process_timer_event/bundle_block", "Blockchain::add_blocks_from_mempool/remove_block_transactions/add_block_failure", "Block::create"],
             stubs: &["no network (blocks and transactions are injected at the consensus processor's channel)", "SimClock", "universe builder for peer blocks"],
             assumptions: &["event-granularity scheduling", "the active probe removes its transaction (and reservation) again"],
@@ -101,7 +107,12 @@ impl Scenario for C14 {
         opts.produce_blocks_by_timer = true;
         let nkey = w.keys[0].clone(); // the node is the usual block creator of this world
         let n = sim.add_node(&nkey, &w.cfg.clone(), &opts);
-        let pre: Vec<Vec<u8>> = chain.iter().map(|i| w.recs[*i].bytes.clone()).collect();
+        let skip = if plan.joined_mid_chain && chain.len() >= 3 { 1 + (plan.seed % 2) as usize } else { 0 };
+        let held_from: u64 = w.recs[chain[skip]].id;
+        if skip > 0 {
+            r.fault("node_joined_mid_chain", 1);
+        }
+        let pre: Vec<Vec<u8>> = chain[skip..].iter().map(|i| w.recs[*i].bytes.clone()).collect();
         if !sim.preload(n, &pre) {
             r.discarded = true;
             return r;
@@ -150,7 +161,8 @@ impl Scenario for C14 {
                 Some(i) => *i,
                 None => break,
             };
-            let ledger = w.ledger_at(tip_idx);
+            let mut ledger = w.ledger_at(tip_idx);
+            ledger.utxo.retain(|_, s| s.block_id >= held_from);
             let (pool_before, reserved_before): (Vec<Transaction>, Vec<UtxoKey>) = {
                 let mp = block_on(sim.nodes[n].mempool_lock.read());
                 let mut v: Vec<Transaction> = mp.transactions.values().cloned().collect();
@@ -223,6 +235,27 @@ impl Scenario for C14 {
                         }
                     }
                 }
+                "tx-spent-input" => {
+                    // a correctly signed transaction whose input a block the node holds has already spent
+                    let spent: Option<SlipRef> = w
+                        .path_to(tip_idx)
+                        .iter()
+                        .filter(|i| w.recs[**i].id >= held_from)
+                        .flat_map(|i| w.recs[*i].txs.iter())
+                        .filter(|t| t.ttype == TransactionType::Normal)
+                        .flat_map(|t| t.inputs.iter())
+                        .find(|s| s.amount > 0)
+                        .cloned();
+                    if let Some(sp) = spent {
+                        if let Some(owner) = w.keys.iter().find(|k| k.pk == sp.pk).cloned() {
+                            tagc += 1;
+                            let mut t = make_tx(&owner, &[sp.clone()], &[(owner.pk, sp.amount)], sim.now() + tagc, &tagc.to_le_bytes());
+                            t.generate(&nkey.pk, 0, 0);
+                            send_tx(&mut sim, t);
+                            r.fault("tx_with_already_spent_input", 1);
+                        }
+                    }
+                }
                 "tx-dup" => {
                     if let Some(t) = last_sent.clone() {
                         send_tx(&mut sim, t);
@@ -244,7 +277,8 @@ impl Scenario for C14 {
                     let other_creator = w.params.n_users + 2;
                     let mut r2 = Rng::new(mix(plan.seed, 1000 + oi as u64));
                     let parent = if (k == "reorg" || k == "peer-side-conflict") && w.recs[tip_idx].parent != [0; 32] { *w.by_hash.get(&w.recs[tip_idx].parent).unwrap() } else { tip_idx };
-                    let pledger = w.ledger_at(parent);
+                    let mut pledger = w.ledger_at(parent);
+                    pledger.utxo.retain(|_, s| s.block_id >= held_from);
                     let ts = w.recs[parent].ts.max(sim.now().saturating_sub(1000)) + 2300;
                     let mut txs: Vec<Transaction> = vec![];
                     let pooled_with_value: Vec<&Transaction> = pool_before.iter().filter(|t| !in_keys(t).is_empty()).collect();
@@ -454,7 +488,8 @@ impl Scenario for C14 {
             }
             // (3b) active probe: an unspent output nobody in the pool spends can be spent
             if let Some(ti) = w.by_hash.get(&tip2.1).cloned() {
-                let l2 = w.ledger_at(ti);
+                let mut l2 = w.ledger_at(ti);
+                l2.utxo.retain(|_, s| s.block_id >= held_from);
                 let (pooled_in, staged_in): (Vec<UtxoKey>, Vec<UtxoKey>) = {
                     let mp = block_on(sim.nodes[n].mempool_lock.read());
                     (mp.transactions.values().flat_map(in_keys).collect(), sim.nodes[n].consensus.txs_for_mempool.iter().flat_map(in_keys).collect())
